@@ -507,8 +507,8 @@ def c01():
 
 PROPS["C01"] = dict(
     obligations=c01,
-    bounds="one page of 3-6 blocks at block sizes 16/32/48/80/1024; every combination of live/free/local-free blocks, list order ascending or descending, arbitrary contents and flags; one allocator step from that state (induction step of the history)",
-    outside="composition over histories and across pages/segments (disjoint spans: segment lemmas; disjoint arena blocks: C14); arbitrary list permutations; page queues and the generic path (heap lemmas); huge pages",
+    bounds="one page of 3-6 blocks at block sizes 16/32/48/80/1024; every combination of live/free/local-free blocks, list order ascending or descending, arbitrary contents and flags; one allocator step from that state (induction step of the history); one span-level step (allocate/split, free/coalesce, page free, abandon, reclaim, segment allocation) from concrete slice layouts with symbolic contents",
+    outside="composition over histories and across pages/segments (disjoint arena blocks: C14); span-level disjointness is decided on driver-enumerated concrete slice layouts only (8-slice segment, fresh normal/huge segments for 6 request sizes), not for arbitrary slice maps; arbitrary list permutations; page-queue search (mi_find_page)",
     assumptions=PAGE_STUBS,
     trusted=["page_layer.c Inv_page builder and list walker"],
 )
@@ -862,7 +862,8 @@ PROPS["C09"] = dict(
 # ------------------------------------------------------------------------------------------------
 # segment commit/purge lemmas (segment_layer.c): C13, C07, part of C18
 SEG_STUBS = ["_mi_os_commit may refuse on every call; _mi_os_purge decommits or resets (nondeterministic); ghost set of OS-committed commit blocks",
-             "segment state: commit and purge masks symbolic inside a 16-block window that crosses a mask-field boundary (blocks 56..71), purge subset of commit, rest of the segment uncommitted; clock non-decreasing; options symbolic"]
+             "segment state: commit and purge masks symbolic inside a 16-block window that crosses a mask-field boundary (blocks 56..71), purge subset of commit, rest of the segment uncommitted; clock non-decreasing; options symbolic",
+             "slice-map lemmas: header-only segment object; _mi_ptr_segment replaced by a stub returning it (its arithmetic: C16.ptr_segment); CBMC --max-field-sensitivity-array-size 520; _mi_memzero replaced by an exact byte loop (page clear) or by a range-checked field-wise zeroing (segment header); arena/OS refusal schedules concrete per obligation; _mi_page_reclaim/_mi_page_free_collect/_mi_heap_by_tag recording stubs; _mi_page_use_delayed_free sequential model"]
 
 
 def sg_ob(id, entry, **kw):
@@ -959,8 +960,8 @@ def c07():
 
 PROPS["C07"] = dict(
     obligations=c07,
-    bounds="every OS answer symbolic in: one OS allocation+free round trip, one segment commit (16-block window), one arena block claim with commit (8 blocks)",
-    outside="span allocation undo (mi_segment_span_allocate / mi_segments_page_find_and_allocate), segment metadata commit failure in mi_segment_os_alloc, thread metadata allocation failure, _mi_malloc_generic retry: the slice-map lemmas were not built (DESIGN.md); crash-freedom of whole workloads under fault injection",
+    bounds="every OS answer symbolic in: one OS allocation+free round trip, one segment commit (16-block window), one arena block claim with commit (8 blocks), one span allocation in an 8-slice segment; concrete refusal schedules for a whole segment allocation",
+    outside="span allocation undo and segment set-up failure are decided on concrete slice layouts and concrete refusal schedules only (span_alloc: 8-slice layout, refused commit of the carved span; segment_alloc_full: arena refusal, refusal of the first metadata commit); thread metadata allocation failure; _mi_malloc_generic retry across layers; crash-freedom of whole workloads under fault injection",
     assumptions=OS_STUBS + SEG_STUBS + ARENA_STUBS,
     trusted=["os_layer.c", "segment_layer.c", "arena_layer.c"],
 )
